@@ -53,6 +53,8 @@ pub enum WOp {
     Yield,
     /// sleep until the harness fires Wake(n)
     Park(u8),
+    /// poll_flush (a no-op for a stream whose writes are sent at once: must succeed at any time and change nothing)
+    Flush,
 }
 
 #[derive(Clone, Debug, Hash, PartialEq, Eq, Serialize, Deserialize)]
@@ -492,6 +494,21 @@ pub async fn run_writer(cell: StreamCell, stream: usize, end: usize, ops: Vec<WO
         match op {
             WOp::Yield => yield_once().await,
             WOp::Park(n) => parking.park(n).await,
+            WOp::Flush => {
+                let r = poll_fn(|cx| {
+                    let mut g = cell.borrow_mut();
+                    match g.as_mut() {
+                        None => Poll::Ready(None),
+                        Some(s) => Pin::new(s).poll_flush(cx).map(Some),
+                    }
+                })
+                .await;
+                match r {
+                    None => return,
+                    Some(Ok(())) => {}
+                    Some(Err(e)) => log.app(AppEv::WriteErr { stream, end, kind: format!("flush:{}", err_kind(&e)) }),
+                }
+            }
             WOp::Shutdown => {
                 let r = poll_fn(|cx| {
                     let mut g = cell.borrow_mut();
